@@ -1,7 +1,7 @@
 PROPS["C12"] = prop(
     "exploration",
     "rapid-generated secrets, exhaustive single-bit mutations and attempt histories against reference models "
-    "(issued-token table, HMAC reference, attempt counter, lower-cased login map)",
+    "(issued-token table, HMAC reference, attempt counter, lower-cased login map); thorough tier: the same generators and oracles also run under Go's native coverage-guided fuzzer (rapid.MakeFuzz, 60 s per target, all cores)",
     "a case is non-trivial when it has >=1 accepted secret and >=1 refused secret derived from the accepted one "
     "(token: bit flips / truncations / foreign verifier / expiry of an accepted token; api key: mutations of an accepted key; "
     "code: a right guess accepted and a derived wrong or repeated guess refused; basic: a right password accepted and a derived "
@@ -15,7 +15,7 @@ PROPS["C12"] = prop(
     "authHttpRequest are not driven: the authenticators are called directly.",
     "5/C12", "auth-direct",
     [Unit("TestC12Token", "server/auth/token", quick=5000, thorough=60000, shards_quick=4, shards_thorough=16),
-     Unit("TestC12APIKey", "server", quick=5000, thorough=60000, shards_quick=4, shards_thorough=16),
+     Unit("TestC12APIKey", "server", quick=5000, thorough=60000, shards_quick=4, shards_thorough=16, fuzz="FuzzC12APIKey", fuzztime=60),
      Unit("TestC12Code", "server/auth/code", quick=12000, thorough=200000, shards_quick=4, shards_thorough=16),
      Unit("TestC12Basic", "server/auth/basic", quick=8, thorough=300, shards_quick=8, shards_thorough=16)],
     ["token serial numbers are generated in 0..65535 (the signed field is 16 bits wide) and expiry stays below 2106 (32-bit seconds)",
